@@ -44,6 +44,37 @@ def ref_literal(ctx: Ctx, c: Class) -> Optional[str]:
             s = const_str(v)
             if s is not None:
                 return s
+            # `return Ref(self._ref)`: the reference is a class-level constant of the codec class (template-method codecs)
+            if isinstance(v, ast.Attribute) and isinstance(v.value, ast.Name) and v.value.id in ("self", "cls"):
+                s = class_attr_const(ctx, c, v.attr)
+                if s is not None:
+                    return s
+    return None
+
+
+def class_attr_const(ctx: Ctx, c: Class, attr: str) -> Optional[str]:
+    """string constant bound to `attr` in the body of the class (or of the nearest base that binds it), or assigned once to
+    `self.attr` by its constructor"""
+    for cq in [c.qname] + ctx.prog.all_bases(c.qname):
+        k = ctx.prog.classes.get(cq)
+        if k is None:
+            continue
+        for st in k.node.body:
+            tgt, val = None, None
+            if isinstance(st, ast.Assign) and len(st.targets) == 1 and isinstance(st.targets[0], ast.Name):
+                tgt, val = st.targets[0].id, st.value
+            elif isinstance(st, ast.AnnAssign) and isinstance(st.target, ast.Name) and st.value is not None:
+                tgt, val = st.target.id, st.value
+            if tgt == attr:
+                return const_str(val)
+        init = k.methods.get("__init__")
+        if init is not None:
+            vals = [n.value for n in init.own_nodes() if isinstance(n, ast.Assign) and any(
+                isinstance(t, ast.Attribute) and t.attr == attr and isinstance(t.value, ast.Name) and t.value.id == "self" for t in n.targets)]
+            if len(vals) == 1:
+                return const_str(vals[0])
+            if vals:
+                return None
     return None
 
 
@@ -295,11 +326,15 @@ def codec_duals(ctx: Ctx, rule4: str, rule5: str) -> int:
     # ---- R4 / R5 duals ---------------------------------------------------------------------------
     n4 = 0
     for c in codec_classes(ctx):
-        s, d = c.methods.get("serialize_into"), c.methods.get("deserialize_from")
-        if s is None or d is None:
+        # the operations a codec object of this class runs (inherited template methods resolved on the class itself);
+        # a class with an unimplemented hook (`raise NotImplementedError()`) is a base, not a codec
+        s, d = prog.find_method(c.qname, "serialize_into"), prog.find_method(c.qname, "deserialize_from")
+        if s is None or d is None or s.cls is None or s.cls.qname in CODEC_BASES or d.cls is None or d.cls.qname in CODEC_BASES:
+            continue
+        if any(_unimplemented(mm) for mm in c.methods.values()):
             continue
         n4 += 1
-        ws, wd = _io_profile(ctx, s), _io_profile(ctx, d)
+        ws, wd = _io_profile(ctx, s, c), _io_profile(ctx, d, c)
         desc = f"{c.name}: serialize_into and deserialize_from are dual"
         wit = []
         if ws["open"] or wd["open"]:
@@ -333,13 +368,12 @@ def codec_duals(ctx: Ctx, rule4: str, rule5: str) -> int:
         handled = _handled(ctx, c)
         if handled & {"str", "bytes"}:
             desc5 = f"{c.name}: the file holds exactly the value (utf-8 text / the bytes)"
-            blob = s.positional_params()[0] if s.positional_params() else None
             w5 = []
             written = ws["written"]
             if len(written) != 1:
                 w5.append(f"{len(written)} write() calls")
             else:
-                w = written[0]
+                w, blob = written[0]
                 if "str" in handled:
                     ok = (isinstance(w, ast.Call) and isinstance(w.func, ast.Attribute) and w.func.attr == "encode" and isinstance(w.func.value, ast.Name)
                           and w.func.value.id == blob and ws["encode"] in (["utf-8"], ["utf8"], ["UTF-8"]))
@@ -464,14 +498,20 @@ def _handled(ctx: Ctx, c: Class) -> Set[str]:
     return out
 
 
-def _io_profile(ctx: Ctx, m: Func) -> Dict[str, list]:
-    """open modes (from the effect model: helpers inlined, mode parameters bound), encodings and read / write operations of a codec method"""
+def _unimplemented(m: Func) -> bool:
+    body = [st for st in m.node.body if not (isinstance(st, ast.Expr) and isinstance(st.value, ast.Constant))]
+    return len(body) == 1 and isinstance(body[0], ast.Raise) and "NotImplementedError" in unparse(body[0])
+
+
+def _io_profile(ctx: Ctx, m: Func, c: Optional[Class] = None) -> Dict[str, list]:
+    """open modes (from the effect model: helpers inlined, mode parameters bound), encodings and read / write operations of a codec method
+    (of the codec class `c`: `self.hook(..)` calls are resolved on it)"""
     from ..fsmodel import StoreModel
     prog = ctx.prog
     prof: Dict[str, list] = {"open": [], "encode": [], "decode": [], "ops": [], "written": [], "uses_loc": []}
     # effects with the location parameter bound to a symbol
     sm = StoreModel.__new__(StoreModel)
-    sm.prog, sm.cls, sm.types, sm.attr_defs, sm.attr_def_exprs, sm.ctor_params = prog, m.cls, ctx._types, {}, {}, []
+    sm.prog, sm.cls, sm.types, sm.attr_defs, sm.attr_def_exprs, sm.ctor_params = prog, (c or m.cls), ctx._types, {}, {}, []
     sm.join_sites = []
     ps = m.positional_params()
     env = {p: ("sym", "BLOB") for p in ps}
@@ -488,12 +528,24 @@ def _io_profile(ctx: Ctx, m: Func) -> Dict[str, list]:
                 prof["uses_loc"].append(True)
     # operations: the method and the module-level helpers it calls
     funcs = [m]
+    # name of the blob in each function: the parameter that receives the blob parameter of the codec method
+    blob_of: Dict[str, Optional[str]] = {m.qname: (ps[0] if len(ps) > 1 else None)}
     for g in funcs:
         for n in g.own_nodes():
             if isinstance(n, ast.Call):
                 d = prog.dotted(g, n.func) or ""
-                if d in prog.funcs and prog.funcs[d].module is m.module and prog.funcs[d] not in funcs and len(funcs) < 8:
-                    funcs.append(prog.funcs[d])
+                h: Optional[Func] = None
+                if d in prog.funcs and prog.funcs[d].module is m.module:
+                    h = prog.funcs[d]
+                elif isinstance(n.func, ast.Attribute) and isinstance(n.func.value, ast.Name) and n.func.value.id == "self" and (c or m.cls) is not None:
+                    h = prog.find_method((c or m.cls).qname, n.func.attr)  # type: ignore
+                if h is not None and h not in funcs and len(funcs) < 8:
+                    funcs.append(h)
+                    hp = h.positional_params()
+                    blob_of[h.qname] = None
+                    for i, a in enumerate(n.args):
+                        if isinstance(a, ast.Name) and a.id == blob_of.get(g.qname) and i < len(hp):
+                            blob_of[h.qname] = hp[i]
     for g in funcs:
         for n in g.own_nodes():
             if not isinstance(n, ast.Call):
@@ -520,8 +572,8 @@ def _io_profile(ctx: Ctx, m: Func) -> Dict[str, list]:
                     prof["uses_loc"].append(True)
                 elif a == "write" and n.args:
                     prof["ops"].append("write")
-                    if g is m:
-                        prof["written"].append(n.args[0])
+                    if blob_of.get(g.qname) is not None:
+                        prof["written"].append((n.args[0], blob_of[g.qname]))
                 elif a == "read":
                     prof["ops"].append("read")
     return prof
